@@ -435,6 +435,11 @@ partial def loop (h : IO.FS.Stream) (out : IO.FS.Stream) (hist : Option HistStat
     | none => out.putStrLn "bad-op"
     | some st => out.putStrLn (((xliqLine st rest).getD "bad-op") ++ " | " ++ digest st)
     loop h out hist bm dyn snap
+  | "H" :: "xrew" :: rest =>
+    match hist with
+    | none => out.putStrLn "bad-op"
+    | some st => out.putStrLn (((xrewLine st rest).getD "bad-op") ++ " | " ++ digest st)
+    loop h out hist bm dyn snap
   | "H" :: "xrepo" :: rest =>
     match hist with
     | none => out.putStrLn "bad-op"
